@@ -254,6 +254,13 @@ theorem holding_blocks_copies (evs : List Event) (o1 o2 : Nat) (x y : Obj)
   have := copies_share_lock evs x y (findObj_mem _ _ _ hx).1 (findObj_mem _ _ _ hy).1 ht
   simp [canAcquire, hy, ← this, hheld]
 
+/-- non-vacuity of `holding_blocks_copies` / `holding_does_not_block_others`: `a = SerializableLock()`, `b = copy(a)`,
+`c = SerializableLock()`; `a.acquire()` — then `b.acquire(False)` fails and `c.acquire(False)` succeeds -/
+example :
+    let s := run init [.new none, .copyOf 0, .new none, .acquire 0]
+    (findObj s 0).map (·.lock) = some 0 ∧ s.held = [0] ∧ canAcquire s 1 = some false ∧ canAcquire s 2 = some true := by
+  decide
+
 /-- … and **holding_does_not_block_others**: objects with a different token are never affected by it: acquiring
 through `o1` changes the answer of `canAcquire o2` for no `o2` with another token. -/
 theorem holding_does_not_block_others (evs : List Event) (o1 o2 : Nat) (x y : Obj)
